@@ -310,15 +310,15 @@ func (c *c04chain) withPrefix(i int) gen.Expr {
 func (c *c04chain) wrapCond(e gen.Expr, g func(gen.Expr) gen.Expr) gen.Expr {
 	switch c.cond {
 	case 1:
-		return &gen.ETern{C: e, A: &gen.EStr{S: "T"}, B: &gen.EStr{S: "F"}}
+		return &gen.ETern{C: e, A: &gen.EStr{S: "<T>"}, B: &gen.EStr{S: "<F&>"}}
 	case 2:
 		// c ? chain : (c2 ? a : chain) — right-nested conditionals with the chain in the branches
-		inner := &gen.ETern{C: &gen.EName{Name: c04name(1)}, A: &gen.EStr{S: "M"}, B: e}
+		inner := &gen.ETern{C: &gen.EName{Name: c04name(1)}, A: &gen.EStr{S: "<M>"}, B: e}
 		var innerE gen.Expr = inner
 		return &gen.ETern{C: &gen.EName{Name: "v0"}, A: e, B: g(innerE)}
 	case 3:
 		// c ? (c2 ? a : chain) : chain — a conditional nested in the TRUE branch, written without parentheses
-		inner := &gen.ETern{C: &gen.EName{Name: c04name(1)}, A: &gen.EStr{S: "M"}, B: e}
+		inner := &gen.ETern{C: &gen.EName{Name: c04name(1)}, A: &gen.EStr{S: "<M>"}, B: e}
 		return &gen.ETern{C: &gen.EName{Name: "v0"}, A: g(inner), B: e}
 	}
 	return e
@@ -585,6 +585,17 @@ func (p *c04) Run(i int) (res fw.Result) {
 			if a.out != b.out || errKind(a.err) != errKind(b.err) {
 				res.Fail("render", key+fmt.Sprintf("#v%d", v), fmt.Sprintf("valuation %d: %s renders %q (err %v) but %s renders %q (err %v)", v, flatSrc, a.out, a.err, refSrc, b.out, b.err), nil)
 			}
+		}
+	}
+	// ... and in an environment of the Twig package, where whatever is printed goes through the escaper first:
+	// parentheses that restate the grouping change nothing there either
+	if k <= 3 || i%20 == 0 || i >= p.nDecor {
+		a := runLib(p.exprProgram(flat, 1), gen.Canon{}, true)
+		b := runLib(p.exprProgram(ref, 1), gen.Canon{}, true)
+		res.Evals += 2
+		res.AddObs("renders_escaped", 2)
+		if a.pan == nil && b.pan == nil && (a.out != b.out || errKind(a.err) != errKind(b.err)) {
+			res.Fail("render", key+"#twig", fmt.Sprintf("Twig environment, valuation 1: %s renders %q (err %v) but %s renders %q (err %v)", flatSrc, a.out, a.err, refSrc, b.out, b.err), nil)
 		}
 	}
 	// non-trivial: precedence matters (the reference differs from pure left and pure right nesting)
